@@ -340,6 +340,15 @@ func (c *SCIONClient) measureClockOffsetSCION(ctx context.Context, mtrcs *scionC
 	}
 	buffer.PushLayer(scionLayer.LayerType())
 
+	// clock reading to fall back on if the kernel does not deliver the transmit
+	// timestamp: taken before the request leaves, and different from cTxTime0,
+	// which a basic-mode request carries as its transmit timestamp (the next
+	// interleaved request must not carry the same value again, or a duplicate
+	// of this exchange's response would pass for the response to that request)
+	cTxTimeFallback := timebase.Now()
+	if !cTxTimeFallback.After(cTxTime0) {
+		cTxTimeFallback = cTxTime0.Add(1)
+	}
 	n, err := conn.WriteToUDPAddrPort(buffer.Bytes(), nextHop)
 	if err != nil {
 		return time.Time{}, 0, err
@@ -352,7 +361,7 @@ func (c *SCIONClient) measureClockOffsetSCION(ctx context.Context, mtrcs *scionC
 		// fall back on the clock reading taken before the request was sent: a
 		// reading taken now, after ReadTXTimestamp has waited in vain, would lie
 		// after the transmission and possibly after the response's arrival
-		cTxTime1 = cTxTime0
+		cTxTime1 = cTxTimeFallback
 		c.Log.LogAttrs(ctx, slog.LevelError, "failed to read packet tx timestamp", slog.Any("error", err))
 	}
 	mtrcs.reqsSent.Inc()
